@@ -84,6 +84,12 @@ theorem persist_restore (A : Agg) (hn : NodupKeys A) (hk : KeysOK A) :
     restore (persist A) = floorAgg A ∧ (TimesAligned A → restore (persist A) = A) :=
   ⟨restore_persist_floor A hn hk, fun ht => by rw [restore_persist_floor A hn hk, floorAgg_of_aligned A ht]⟩
 
+/-- The key guard of `persist_restore` holds whenever no method contains `:` and no (normalised) URL contains
+    `:::` — the decidable complement of finding class F15b. -/
+theorem keysOK_of_clean (A : Agg) (he : ∀ p ∈ A.endpoints, cleanKey p.1 = true)
+    (hc : ∀ p ∈ A.consumers, cleanKey p.1.2 = true) : KeysOK A :=
+  keysOK_of_cleanKeys A he hc
+
 /-! ## Pipeline -/
 
 /-- Totals are conserved by the whole pipeline for ANY normaliser (no law needed: merging URLs under inferred
@@ -139,6 +145,68 @@ theorem attribution_exact {τ : Type} (N : Normaliser τ) (T0 : τ) (L : Laws N 
   rw [← e] at h
   simp only at h
   exact ⟨h.1, by rw [← h.1]; exact h.2⟩
+
+/-- THE CONNECTION: the predicate the judge evaluates on the implementation's state files (`Spec.C15.holds`:
+    nothing rejected, totals conserved per method and per consumer, `count = Σ status`, interceptor times,
+    and equal statistics for all restart-free splittings) is TRUE of the observations of the model, for every
+    lawful normaliser, every stream without refusable URL, every family of splittings (`fulls`) and every
+    family of runs with restarts (`rests`) of that stream whose side conditions `RunOK` hold.  So a judge
+    failure on the implementation is a divergence from the proved model, or lies in an excluded class. -/
+theorem judge_holds_on_model {τ : Type} (N : Normaliser τ) (T0 : τ) (L : Laws N T0) (stream : List Rec)
+    (hclean : hasBadUrl stream = false)
+    (fulls : List (List (List Rec))) (hfull : ∀ bs ∈ fulls, bs.flatten = stream)
+    (hokF : ∀ bs ∈ fulls, RunOK N T0 (St.init T0) (bs.map Seg.batch))
+    (rests : List (List Seg)) (hrest : ∀ segs ∈ rests, recsOf segs = stream)
+    (hokR : ∀ segs ∈ rests, RunOK N T0 (St.init T0) segs) (thr : Nat) (known : List String) :
+    holds { thr := thr, known := known, recs := stream,
+            runs := fulls.map (fun bs => observeRun N T0 true (bs.map Seg.batch))
+                    ++ rests.map (fun segs => observeRun N T0 false segs) } = true := by
+  have recsOf_batches : ∀ bs : List (List Rec), recsOf (bs.map Seg.batch) = bs.flatten := by
+    intro bs; induction bs with
+    | nil => rfl
+    | cons b rest ih => simp [recsOf, ih]
+  -- every single run conserves
+  have hcons : ∀ (full : Bool) (segs : List Seg), recsOf segs = stream → RunOK N T0 (St.init T0) segs →
+      ((observeRun N T0 full segs).nondet = false ∧ (observeRun N T0 full segs).fails = 0 ∧
+        conserves stream (observeRun N T0 full segs) = true) := by
+    intro full segs hr hok
+    have ht := (restart_conserves_totals_partial N T0 segs hok).2
+    have hagg := (runSegs_aggOk N T0 segs (St.init T0) aggOk_empty (by
+      simpa [St.init] using aggOk_restore_persist {} aggOk_empty)).2
+    rw [hr] at ht
+    have h0 := failCount_zero N T0 segs (St.init T0) hok
+    refine ⟨rfl, by simp [observeRun, observe, h0], ?_⟩
+    simp only [observeRun, h0]
+    exact conserves_of_totals full _ stream ht hagg
+  simp only [holds, Bool.and_eq_true, List.all_eq_true, List.mem_append, List.mem_map]
+  refine ⟨?_, ?_⟩
+  · intro o ho
+    rcases ho with ⟨bs, hbs, rfl⟩ | ⟨segs, hs, rfl⟩
+    · obtain ⟨h1, h2, h3⟩ := hcons true _ ((recsOf_batches bs).trans (hfull bs hbs)) (hokF bs hbs)
+      simp [h1, h2, h3]
+    · obtain ⟨h1, h2, h3⟩ := hcons false _ (hrest segs hs) (hokR segs hs)
+      simp [h1, h2, h3]
+  · -- batch independence among the restart-free runs
+    apply batchInvariant_of_pairwise
+    intro a ha b hb
+    simp only [List.mem_filter, List.mem_append, List.mem_map] at ha hb
+    have pick : ∀ o : RunObs, ((∃ bs, bs ∈ fulls ∧ observeRun N T0 true (bs.map Seg.batch) = o) ∨
+        (∃ segs, segs ∈ rests ∧ observeRun N T0 false segs = o)) → o.full = true →
+        ∃ bs, bs ∈ fulls ∧ observeRun N T0 true (bs.map Seg.batch) = o := by
+      intro o h hf
+      rcases h with h | ⟨segs, _, rfl⟩
+      · exact h
+      · simp [observeRun, observe] at hf
+    obtain ⟨bs₁, h₁, rfl⟩ := pick a ha.1 ha.2
+    obtain ⟨bs₂, h₂, rfl⟩ := pick b hb.1 hb.2
+    have hinv := batch_invariant_partial N T0 L bs₁ bs₂ ((hfull _ h₁).trans (hfull _ h₂).symm)
+      ((hfull _ h₁).symm ▸ hclean)
+    have f₁ := runSegs_batches_file N T0 bs₁ (St.init T0) rfl (hokF _ h₁)
+    have f₂ := runSegs_batches_file N T0 bs₂ (St.init T0) rfl (hokF _ h₂)
+    have n₁ := runSegs_nodup N T0 (bs₁.map Seg.batch) (St.init T0) nodupKeys_empty
+    have n₂ := runSegs_nodup N T0 (bs₂.map Seg.batch) (St.init T0) nodupKeys_empty
+    simp only [observeRun, failCount_zero N T0 _ _ (hokF _ h₁), failCount_zero N T0 _ _ (hokF _ h₂), f₁.1, f₂.1]
+    exact sameStats_of_aggEq _ _ hinv.2 n₁ f₁.2 n₂ f₂.2
 
 /-! ## The excluded classes really break the full statements -/
 
@@ -219,6 +287,17 @@ example :
 /-- `RunOK` is satisfiable by a run with a restart in the middle; the totals survive it. -/
 example : RunOK (toyN true) 0 (St.init 0) [Seg.batch [rec1 "a.com/x"], Seg.restart, Seg.batch [rec1 "a.com/y"]] := by
   unfold RunOK RunOK RunOK RunOK KeysOK
+  decide
+
+/-- `judge_holds_on_model` on a concrete case (two splittings and a run with a restart of a three-record stream
+    that converges): the judge's predicate evaluates to `true`. -/
+example :
+    let stream := [rec1 "a.com/x", rec1 "a.com/y", rec1 "a.com/z"]
+    holds { recs := stream,
+            runs := [observeRun (toyN true) 0 true ([stream].map Seg.batch),
+                     observeRun (toyN true) 0 true ([[rec1 "a.com/x"], [rec1 "a.com/y", rec1 "a.com/z"]].map Seg.batch),
+                     observeRun (toyN true) 0 false [Seg.batch [rec1 "a.com/x"], Seg.restart,
+                                                     Seg.batch [rec1 "a.com/y", rec1 "a.com/z"]]] } = true := by
   decide
 
 /-- `persist_restore`'s guards hold of a non-trivial aggregation. -/
